@@ -231,18 +231,20 @@ PROPS["C14"] = dict(
     assumptions=["A-float (Len through float64 exact below 2^53)", "time and allocation are measured, not proved"],
 )
 PROPS["C16"] = dict(
-    n_quick=60, n_thorough=1500, impl_cmd=[__import__("os").path.join(__import__("os").path.dirname(__import__("os").path.dirname(__import__("os").path.abspath(__file__))), "build", "racer"), "run"],
+    n_quick=60, n_thorough=1500, search_n=150, impl_cmd=[__import__("os").path.join(__import__("os").path.dirname(__import__("os").path.dirname(__import__("os").path.abspath(__file__))), "build", "racer"), "run"],
     pre=["build_racer"], timeout=1800,
     classify=lambda op, i, m: "race:" + op.split(" ")[2] + "goroutines",
     rule="op race: a FRESH process built with -race in which 2-16 goroutines, released by one barrier as the very first library "
-         "calls of the process, each issue 5-60 random API calls on their own values (NewFrameSet, NewFileSequencePad of both "
+         "calls of the process, each issue 5-60 random API calls on their own values and their own directory (two sequences, a plain "
+         "file, three links to files and one to a directory): FindSequencesOnDisk, FindSequenceOnDisk, ListFiles, pad widths up to 21 "
+         "and zfill up to 40 (NewFrameSet, NewFileSequencePad of both "
          "styles, SetPaddingStyle, Format, Copy, Split, IsFrameRange, PadFrameRange, FramesToFrameRange, FindSequencesInList, "
          "PaddingChars); a race report, a crash, or results differing from a sequential re-computation fail the op; "
          "non-trivial = any distinct op",
     assumptions=["Go memory model and race detector; schedules of the real code are sampled"],
 )
 PROPS["C17"] = dict(
-    n_quick=250, n_thorough=6000, pre=["build_clis"], timeout=2400,
+    n_quick=250, n_thorough=6000, search_n=400, pre=["build_clis"], timeout=2400,
     classify=lambda op, i, m: "seqls:" + op.split(" ")[1],
     rule="op seqls: the real binary (built from /repo/cmd/seqls on every run) on a generated tree (1-6 directories, depth <= 4, "
          "hidden directories and files, empty directories, file links, one directory link per target placed in the tree root; "
@@ -255,7 +257,7 @@ PROPS["C17"] = dict(
                  "basenames in generated trees do not end in a digit or '-', so that a printed line re-parses unambiguously"],
 )
 PROPS["C18"] = dict(
-    n_quick=400, n_thorough=8000, pre=["build_clis"], timeout=2400,
+    n_quick=400, n_thorough=8000, search_n=600, pre=["build_clis"], timeout=2400,
     classify=lambda op, i, m: "seqinfo:" + op.split(" ")[1] + ":" + op.split(" ")[2],
     rule="op seqinfo: the real binary (built from /repo/cmd/seqinfo on every run) on 1-64 valid-UTF-8 patterns (duplicates, "
          "malformed ones) through arguments or stdin x random subsets of --hash1 -d -b -r -p -e --format (8 templates of literal "
@@ -267,14 +269,18 @@ PROPS["C18"] = dict(
 PROPS["C20"] = dict(
     n_quick=3000, n_thorough=40000, impl_cmd=[__import__("os").path.join(__import__("os").path.dirname(__import__("os").path.dirname(__import__("os").path.abspath(__file__))), "build", "handles", "handlesdrv")],
     pre=["build_handles"], timeout=1500,
-    classify=lambda op, i, m: ("stress:" + op.split(" ")[2] + "threads") if op.startswith("hstress") else ("history:" + ("stale" if "X" in op or "g0" in m else "live")),
-    rule="ops handles (single-threaded history of Add/Incref/Decref/Get/Len on up to 8 handles of either map, incl. handles "
+    classify=lambda op, i, m: ("stress:" + op.split(" ")[2] + "threads") if op.startswith("hstress") else (("sched:" + op.split(" ")[1] + ":" + op.split(" ")[2] + "threads") if op.startswith("hsched") else ("history:" + ("stale" if "X" in op or "g0" in m else "live"))),
+    rule="ops hsched (a scenario of 2-4 threads x 0-5 owner operations on 1-2 shared handles of one or both tables, run under 150 "
+         "(thorough 1500) DETERMINISTIC schedules of an instrumented copy of /repo's storage.go + uuid.go — a scheduling point before "
+         "every statement, lock and atomic operation, cooperative scheduler with one PRNG state, four stay-on-thread biases; per "
+         "schedule: owned handle resolves, ids non-zero and distinct, nothing resolves after the last release, live count back to "
+         "the start, no deadlock / livelock / panic; the failing schedule index is the replay), handles (single-threaded history of Add/Incref/Decref/Get/Len on up to 8 handles of either map, incl. handles "
          "already released and unknown ids; every result and Len compared with the sequential model; ids checked non-zero and "
          "distinct) and hstress (2-8 goroutines x 1-8 handles x up to 3000 random owner-only operations, built with -race: no "
          "failed lookup while owned, live count back to the start at quiescence, no race report; each op starts with an add storm: "
          "all goroutines create handles at once, the ids must be non-zero, pairwise distinct, resolvable and counted); the driver is built on every "
          "run from unchanged copies of /repo/exp/cpp/export/storage.go and uuid.go; non-trivial = any distinct op",
-    assumptions=["interleavings of the real code are sampled (race detector + stress), the theorem covers all interleavings of the model",
+    assumptions=["interleavings of the real code are sampled (deterministic schedules of the instrumented copy, race detector + stress of the unchanged copy); the theorems cover all interleavings of the model",
                  "full period 2^64-1 of xorshift64 is cited, not proved"],
 )
 
